@@ -365,7 +365,12 @@ def run_shard(shard, env):
         for case in cases:
             try:
                 errs = run_new(case, env, res) if case["api"] == "new" else run_old(case, env, res, tmpdir, state)
-            except Exception:
+            except Exception as e:
+                from ..env import HarnessTimeout
+
+                if isinstance(e, HarnessTimeout):
+                    res.inconclusive.append("harness time-out (not a verdict): %s" % str(e)[:600])
+                    continue
                 errs = [("harness-exception", traceback.format_exc()[-1500:])]
             res.sample(case)
             if errs:
